@@ -141,6 +141,7 @@ def check_specs(chk, specs, label):
         if again != data:
             replay['reencoded'] = again.hex()
             chk.violation('C02:reencode-bytes', 're-encoding the decoded bundle does not reproduce the octets', replay)
+        _reencode_like_agent(chk, data, replay, crcs_valid=(spec['crc_mode'] == 'update'))
         # --- B: decoders
         raw = G.lean_observable(dec.get('raw'))
         if raw != seen:
@@ -212,6 +213,100 @@ def check_asb_model(chk):
             chk.corr_break('ASB: Lean encoder differs from the real security block payload', dict(rp, lean_asb=enc.get('hex')))
         if G.lean_asb_observable(dec.get('asb')) != G.asb_observable(asb):
             chk.corr_break('ASB: Lean decoder differs from the generated values', dict(rp, lean_asb=dec.get('asb')))
+
+
+def _reencode_like_agent(chk, data, replay, crcs_valid):
+    ''' the agent encodes every bundle it sends with fill_fields(); update_all_crc(); bytes() — for a decoded
+    bundle whose CRCs are valid that must reproduce the received octets (the CRC of a block does not
+    depend on the CRC value the block already carries) '''
+    if not crcs_valid:
+        return
+    R = G.real()
+    try:
+        b2 = R['Bundle'](data)
+        b2.fill_fields()
+        b2.update_all_crc()
+        out = bytes(b2)
+        b2.update_all_crc()
+        out2 = bytes(b2)
+    except Exception as e:  # noqa
+        chk.violation('C02:reencode-after-crc-update', 'fill_fields(); update_all_crc(); bytes() raised %r on a decoded bundle' % e, dict(replay))
+        return
+    chk.count('reencode-like-agent')
+    if out != data or out2 != data:
+        rp = dict(replay)
+        rp['reencoded_after_update'] = out.hex()
+        rp['reencoded_after_second_update'] = out2.hex()
+        chk.violation('C02:reencode-after-crc-update', 're-encoding a decoded bundle with valid CRCs the way the agent does '
+                      '(fill_fields(); update_all_crc(); bytes()) does not reproduce the octets', rp)
+
+
+def _dtn_ms(dt):
+    ''' exact integer milliseconds since the DTN epoch 2000-01-01T00:00:00Z (floor), integer arithmetic only '''
+    import datetime
+    d = dt - datetime.datetime(2000, 1, 1, tzinfo=datetime.timezone.utc)
+    return (d.days * 86400 + d.seconds) * 1000 + d.microseconds // 1000
+
+
+def check_dtntime(chk, n):
+    ''' G: DTN times given as datetime objects / ISO text (Timestamp(dtntime=…), StatusInfo(at=…), the
+    agent's Timestamper path DtnTimeField.datetime_to_dtntime): the encoded integer is the exact number
+    of milliseconds since 2000-01-01, and for millisecond-precision datetimes the value read back is
+    the datetime that was set. Values are aimed at the places where a floating-point conversion goes
+    wrong: non-zero milliseconds with a seconds count just above a power of two. '''
+    import datetime
+    R = G.real()
+    from bp.encoding.fields import DtnTimeField
+    rng = chk.rng
+    epoch = datetime.datetime(2000, 1, 1, tzinfo=datetime.timezone.utc)
+    cands = []
+    for k in range(0, 33):
+        for _ in range(3):
+            secs = (1 << k) + rng.randrange(0, max(1, (1 << k) // 40 + 1))
+            cands.append((secs, rng.choice([1, 999, rng.randrange(1, 1000)]), 0))
+    for _ in range(n):
+        secs = rng.randrange(0, 2 ** 32)
+        cands.append((secs, rng.choice([0, 1, 500, 999, rng.randrange(1000)]), rng.choice([0, 0, 1, 999, rng.randrange(1000)])))
+    reqs = []
+    todo = []
+    for secs, ms, us in cands:
+        if secs >= 253370764800:     # year 9999
+            continue
+        dt = epoch + datetime.timedelta(seconds=secs, milliseconds=ms, microseconds=us)
+        want = _dtn_ms(dt)
+        todo.append((dt, want, us))
+        reqs.append({'op': 'bp.dtntime', 'us': (secs * 1000 + ms) * 1000 + us})
+    outs = chk.driver(reqs)
+    for (dt, want, us), o in zip(todo, outs):
+        replay = {'stream': 'G', 'datetime': dt.isoformat(), 'expected_dtntime': want}
+        chk.case(replay)
+        chk.count('G:dtntime from datetime')
+        if o.get('dtntime') != want:
+            chk.corr_break('G: Lean dtnTimeOfMicros differs from the harness integer conversion', dict(replay, lean=o))
+        got = {}
+        try:
+            got['datetime_to_dtntime'] = DtnTimeField.datetime_to_dtntime(dt)
+            ts = R['Timestamp'](dtntime=dt, seqno=1)
+            got['Timestamp.dtntime'] = ts.getfieldval('dtntime')
+            got['Timestamp bytes'] = bytes(ts).hex()
+            got['Timestamp(iso text)'] = R['Timestamp'](dtntime=dt.replace(tzinfo=None).isoformat(), seqno=1).getfieldval('dtntime')
+            si = R['StatusInfo'](status=True, at=dt)
+            got['StatusInfo bytes'] = bytes(si).hex()
+            back = R['Timestamp'](bytes(ts))
+            got['read back'] = DtnTimeField.dtntime_to_datetime(back.getfieldval('dtntime'))
+        except Exception as e:  # noqa
+            got['raised'] = '%s: %s' % (type(e).__name__, e)
+        exp = {'datetime_to_dtntime': want, 'Timestamp.dtntime': want,
+               'Timestamp bytes': G.cb_arr([G.cb_uint(want), G.cb_uint(1)]).hex(),
+               'Timestamp(iso text)': want, 'StatusInfo bytes': G.cb_arr([b'\xf5', G.cb_uint(want)]).hex(),
+               'read back': (dt - datetime.timedelta(microseconds=us)) if want else None}
+        bad = {k: (repr(got.get(k)), repr(v)) for k, v in exp.items() if got.get(k) != v}
+        if 'raised' in got or bad:
+            replay['got_vs_expected'] = bad
+            replay['raised'] = got.get('raised')
+            chk.violation('C02:dtntime-conversion', 'a DTN time given as a datetime is not encoded as the exact number of '
+                          'milliseconds since 2000-01-01T00:00:00Z (or does not read back as the value set): %s' % bad, replay)
+        chk.cov['traces_validated_against_impl'] += 1
 
 
 def _crc_widths_ok(spec):
@@ -617,6 +712,7 @@ def check_foreign(chk, specs):
         if again != data:
             replay['reencoded'] = again.hex() if again is not None else None
             chk.violation('C02:reencode-bytes', 're-encoding the decoded bundle does not reproduce the octets', replay)
+        _reencode_like_agent(chk, data, replay, crcs_valid=True)
         raw = G.lean_observable(o.get('raw'))
         if raw != seen:
             replay['lean_decoded'] = raw
@@ -704,6 +800,7 @@ def run(chk):
     for k in range(0, len(cases), 1000):
         check_malformed(chk, cases[k:k + 1000])
     check_pending_reenc(chk)
+    check_dtntime(chk, 300 if quick else 20000)
     check_agent_tx(chk, specs[:150 if quick else 2000])
     d19_probe(chk)
 
